@@ -8,7 +8,7 @@ import vlib
 META = {
     "property_id": "C08",
     "level": "proof",
-    "technique": "Coq theorems over an executable model of the gsort generator (tag grouping, Validate, PriorityTree, CompareLine rendering, the template's PriorityBlock recursion) for any number of fields/priorities/key kinds, plus a generic strict-weak-order sorting library (any sorted permutation agrees with the stable reference sort up to ties, equals it when stable); tied to the source by a generator farm: random struct definitions run through the real gsort CLI, compiled, Less observed on all pairs over all slices of <=4 elements, sort.Sort/sort.Stable observed on random slices <=200, every observation judged inside Coq against model and specification",
+    "technique": "Coq theorems over an executable model of the gsort generator (tag parsing, tag grouping, Validate, PriorityTree, CompareLine rendering, the template's PriorityBlock recursion; the rendered text is linked to its meaning by a parser + evaluator of the emitted Go statements, proved to compute the model's Less, and the same parser/evaluator gives the text the real template writes a meaning that is compared with the specification on every case) for any number of fields/priorities/key kinds, plus a generic strict-weak-order sorting library (any sorted permutation agrees with the stable reference sort up to ties, equals it when stable); tied to the source by a generator farm: random struct definitions run through the real gsort CLI, compiled, Less observed on all pairs over all slices of <=4 elements, sort.Sort/sort.Stable observed on random slices <=200, every observation judged inside Coq against model and specification",
     "design_ref": "DESIGN.md §4 C08",
     "level_text": "Proof: GSortProofs.v shows for every struct definition (any number of tagged fields, any distinct priorities, ordered and bool keys, accessors, value and pointer form, any number of sorters) that the Less the generator emits is exactly lexicographic comparison of the tagged fields in ascending priority with false < true (C08_lex, C08_keys_*), hence a strict weak order (C08_irrefl/_asym/_trans/_equiv_trans); Base/SortU.v shows the reference insertion sort yields a sorted stable permutation and that ANY sorted permutation agrees with it up to ties and equals it when stable (C08_any_sort, C08_any_stable_sort). Props/C08.v is closed under the global context. The pinned rendering of a last bool key (`return s[j].X`) is kept as less_orig with C08_irrefl_orig_refuted. The model is tied to the current source by the farm run of every check.",
     "level_note": "Trusted: Coq 8.16.1 kernel + vm_compute; the hand-written model's fidelity is checked (not proved) by the farm correspondence; that Go's sort.Sort / sort.Stable return a sorted (resp. sorted and stable) permutation for a strict weak order is trusted and exercised on every run; Go compiler/runtime semantics of ==, <, !, && on the field types; the harness (definition generator, rank computation with Go's own comparison, driver). No axioms.",
@@ -30,7 +30,8 @@ HEADER = ("From Coq Require Import NArith ZArith List Bool String.\nImport ListN
 # (used only to LOCATE the offending observation for the replay file; verdicts come from Coq)
 
 def chain(d, sorter):
-    """[(tagged slot, isbool)] of the sorter in ascending priority"""
+    """[(priority, tagged slot, isbool, field, read through the accessor)] of the sorter in
+    ascending priority; which view of the field a key reads is decided by its own tag"""
     ks, slot = [], 0
     for f in d["fields"]:
         tags = f.get("tags") or []
@@ -38,15 +39,20 @@ def chain(d, sorter):
             continue
         for t in tags:
             if t["sorter"] == sorter:
-                ks.append((t["prio"], slot, f["gotype"] == "bool", f))
+                ks.append((t["prio"], slot, f["gotype"] == "bool", f, bool(t.get("acc"))))
         slot += 1
     ks.sort(key=lambda k: k[0])
     return ks
 
 
+def key_ranks(f, acc):
+    return (f.get("acc_ranks") or f["ranks"]) if acc else f["ranks"]
+
+
 def lex_less(ks, a, b):
-    for _, slot, _, f in ks:
-        ra, rb = f["ranks"][a[slot]], f["ranks"][b[slot]]
+    for _, slot, _, f, acc in ks:
+        r = key_ranks(f, acc)
+        ra, rb = r[a[slot]], r[b[slot]]
         if ra != rb:
             return ra < rb
     return False
@@ -68,6 +74,8 @@ def locate(j):
         return {"what": "generation or compilation failed", "log": j.get("gen_log", "")[-1200:]}
     ks = chain(d, s)
     univ = j["univ"]
+    if j.get("lenswap_bad"):
+        return {"call": "Len/Swap", "observed": j["lenswap_bad"]}
     for a, ta in enumerate(univ):
         st, sf = int(j["seen_t"][a], 16), int(j["seen_f"][a], 16)
         for b, tb in enumerate(univ):
@@ -89,7 +97,9 @@ def locate(j):
             if bad:
                 return {"call": name, "input": [go_elem(d, univ[i]) for i in r_in[:12]],
                         "input_len": len(r_in), "observed_ids": o[:12]}
-    return {"what": "no spec-level departure located (model-only difference)"}
+    return {"what": "no departure of the compiled behaviour from the specification located: a model-only difference, "
+                    "or the generated TEXT, as read and evaluated in Coq (GSortJudge.text_sem), does not denote the "
+                    "specification although the compiled code behaves"}
 
 
 def shape(j):
@@ -100,21 +110,31 @@ def shape(j):
         "keys": len(ks),
         "last_key_bool": bool(ks and ks[-1][2]),
         "pointer": s.startswith("*"),
+        # some key's field carries further gsort tags (other sorters) that read it another way
+        "field_views_differ": any(len({bool(t.get("acc")) for t in k[3]["tags"]}) > 1 for k in ks),
     }
 
 
 def reduced_defs(j):
-    """candidates for minimisation: the sorter alone over a suffix of its key chain"""
+    """candidates for minimisation: the sorter alone over a suffix of its key chain; then the
+    same suffixes with the fields keeping ALL their tags (a failure may need the other tags of
+    a field, e.g. parser state carried from one tag to the next)"""
     d, s = j["def"], j["sorter"]
     ks = chain(d, s)
     out = []
-    for m in range(1, len(ks) + 1):
+    for m in list(range(1, len(ks) + 1)) + [-x for x in range(1, len(ks) + 1)]:
+        alltags, m = m < 0, abs(m)
         keep = ks[len(ks) - m:]
         fields = []
-        for prio, _, _, f in keep:
+        for prio, _, _, f, acc in keep:
             g = dict(f)
-            acc = [t["acc"] for t in f["tags"] if t["sorter"] == s][0]
-            g["tags"] = [{"sorter": s, "prio": prio, "acc": acc}]
+            if alltags:
+                g["tags"] = [dict(t) for t in f["tags"]]
+                if any(u["name"] == g["name"] for u in fields):
+                    continue
+            else:
+                g["tags"] = [{"sorter": s, "prio": prio,
+                              "acc": [t["acc"] for t in f["tags"] if t["sorter"] == s and t["prio"] == prio][0]}]
             fields.append(g)
         # keep declaration order
         names = [f["name"] for f in d["fields"]]
@@ -125,7 +145,7 @@ def reduced_defs(j):
                 [u for u in uniq if u["name"] == g["name"]][0]["tags"] += g["tags"]
             else:
                 uniq.append(g)
-        out.append({"kind": j["kind"] + "/minimised", "pkg": "m%d" % m, "type": d["type"], "fields": uniq})
+        out.append({"kind": j["kind"] + "/minimised", "pkg": "m%d%s" % (m, "t" if alltags else ""), "type": d["type"], "fields": uniq})
     return out
 
 
@@ -183,7 +203,7 @@ def run(ctx):
     ctx.trusted = TRUSTED
     ctx.assumptions = ["field types are ordered Go types (strings, integers, floats without NaN), bool, or named types read through String(); elements are non-nil",
                        "every sorter's priorities are pairwise distinct (the property's quantifier; otherwise the generator refuses, which is compared with the model but never gates)",
-                       "a named field is read the same way (with or without the accessor) by all of its tags"]
+                       "the accessor of the quantifier is String(): an element has two views per field (read plainly, read through the accessor); which one a key reads is decided per tag"]
     ctx.obligations_or_violation()
     ok, log = ctx.coq_build(["theories/GSortJudge.vo"])
     if not ok:
@@ -199,6 +219,11 @@ def run(ctx):
                    {"kind": "build"}, failing_input=False)
         return
     quick = ctx.tier == "quick"
+    # (T) the template's recursive block, regenerated from gsort.gotmpl, executed in Coq on all
+    # chains of 1..4 compare lines: same words as the model's render_block (coq/ties/Tie_C08.v).
+    # A broken tie is reported after the farm (which looks for a failing input) has run.
+    tie_ok, tie_detail = ctx.translator_tie("xlate_gsort_tmpl", ["-repo", ctx.copy_repo()], "GsortTmplGen", "Tie_C08")
+    ctx.log("template tie:", "OK" if tie_ok else "BROKEN", "-", tie_detail.splitlines()[0])
     farm = Farm(ctx, binp, gsort)
     args = ["-mode", "all", "-n", 24 if quick else 300, "-limit", 5600000 if quick else 30000000,
             "-runs", 6 if quick else 16]
@@ -212,7 +237,7 @@ def run(ctx):
         return
     ctx.log("farm: %d sorters of %d definitions generated, compiled and observed" % (
         len(jsons), len({j["def"]["pkg"] for j in jsons})))
-    bad, text_ok, err = farm.judge(terms, "farm", nontrivial="gs_text_ok")
+    bad, text_ok, err = farm.judge(terms, "farm", nontrivial="gs_text_parsed")
     if err:
         ctx.report({"unchecked": "in-kernel evaluation of the correspondence", "detail": err},
                    {"kind": "coq_eval"}, failing_input=False)
@@ -266,6 +291,17 @@ def run(ctx):
                "replay_cmd": "./check C08 --replay <this file>"}
         if ctx.report(rep, shape(j), failing_input=(code == 1)) == "violation":
             ctx.violations += ["(like the replay above)"] * (len(members) - 1)
+    if not tie_ok:
+        ctx.cov["translator_tie"] = {"status": "BROKEN", "detail": tie_detail[-800:]}
+        if not any(code == 1 for (code, _, _) in groups):
+            genf = os.path.join(ctx.gen, "GsortTmplGen.v")
+            ctx.report({"unchecked": "tie Tie_C08: the recursive block of gsort.gotmpl, executed on all chains of 1..4 compare "
+                                     "lines, writes the words of the model's render_block",
+                        "detail": tie_detail[-2500:],
+                        "regenerated_block": open(genf).read()[-2500:] if os.path.isfile(genf) else None,
+                        "note": "the farm of this run (compiled behaviour and the generated text, parsed and evaluated in Coq) "
+                                "found no input on which the generated Less departs from the specification"},
+                       {"kind": "translator_tie"}, failing_input=False)
     gen = [j for j in jsons if j["gen_ok"]]
     nt = [j for j in gen if len(chain(j["def"], j["sorter"])) >= 2 or shape(j)["last_key_bool"]]
     ctx.cov.update({
@@ -284,11 +320,20 @@ def run(ctx):
         "exhaustive_note": "%d of %d sorters: every slice of <= 4 elements over the full value space enumerated; the others "
                            "(value space too large for the tier's budget): all slices of <= 2 elements exhaustively (every ordered pair, "
                            "both positions) + random slices of 3-4" % (sum(1 for j in gen if j.get("exhaustive")), len(gen)),
-        "generated_text_equals_model_rendering": "%d of %d" % (text_ok, len(jsons)),
+        "generated_text_parsed_and_evaluated_in_coq": "%d of %d sorters (the Less body the real template wrote, read by "
+                                                      "GSortTextModel.parse_lines and run by eval_stmts on every pair of the "
+                                                      "universe; it must equal the lexicographic specification)" % (text_ok, len(jsons)),
+        "len_swap_probes": sum(j.get("lenswaps", 0) for j in gen),
         "by_kind": gsort_lib.hist(j["kind"] for j in jsons),
         "keys_per_sorter": gsort_lib.hist(len(chain(j["def"], j["sorter"])) for j in jsons),
-        "key_kinds": gsort_lib.hist(k[3]["kind"] + ("+String()" if any(t["acc"] for t in k[3]["tags"]) else "")
+        "key_kinds": gsort_lib.hist(k[3]["kind"] + ("(" + k[3].get("under", "") + ")" if k[3]["kind"] == "named" else "")
+                                    + ("+String()" if k[4] else "")
                                     for j in jsons for k in chain(j["def"], j["sorter"])),
+        "fields_read_both_ways": sum(
+            1 for d in {j["def"]["pkg"]: j["def"] for j in jsons}.values() for f in d["fields"]
+            if len({bool(t.get("acc")) for t in (f.get("tags") or [])}) > 1),
+        "fields_with_several_tags": gsort_lib.hist(
+            len(f.get("tags") or []) for d in {j["def"]["pkg"]: j["def"] for j in jsons}.values() for f in d["fields"]),
         "bool_position": gsort_lib.hist(
             ("last" if shape(j)["last_key_bool"] else "not-last" if any(k[2] for k in chain(j["def"], j["sorter"])) else "none")
             for j in jsons),
@@ -302,8 +347,8 @@ def run(ctx):
         "disagreements": len([b for b in bad if not jsons[b[0]]["kind"].startswith("out-of-domain")]),
     })
     if text_ok != len(jsons):
-        ctx.log("note: generated text equals the model's rendering for %d of %d sorters "
-                "(informational; behaviour is what is judged)" % (text_ok, len(jsons)))
+        ctx.log("note: the generated Less text was parsed and given a meaning in Coq for %d of %d sorters; the others are "
+                "judged by their compiled behaviour only (a re-spelled template is not an alarm)" % (text_ok, len(jsons)))
     ctx.log("correspondence: %d sorters, %d Less calls over %d slices, %d sort runs, %d disagreement(s)" % (
         len(jsons), ctx.cov["less_calls_observed"], ctx.cov["slices_enumerated"], ctx.cov["sort_runs"],
         ctx.cov["disagreements"]))
